@@ -16,6 +16,10 @@ var c03Kinds = []string{"mem", "plain-store", "mount", "sub-of-mem", "sub-of-mou
 func c03NewFS() hackpadfs.FS {
 	kind := verifParam("FSKIND")
 	verifTag("fs", c03Kinds[kind])
+	return c03NewFSKind(kind)
+}
+
+func c03NewFSKind(kind int) hackpadfs.FS {
 	newMem := func() *mem.FS {
 		m, err := mem.NewFS()
 		verifAssert(err == nil, "NewFS failed")
